@@ -19,8 +19,10 @@ func cnfCases(env *core.Env, count int, cert func(i int) bool) []core.Case {
 		var clauses [][]int
 		if nv > 0 {
 			m := r.Intn(4*nv + 2)
-			if r.Intn(3) == 0 { // near the 3-SAT threshold, clean
-				clauses = gen.RandCNF(r, nv, int(4.3*float64(nv)), 3, false)
+			if r.Intn(2) == 0 { // near the 3-SAT threshold (mixed with a few binary clauses): conflicts
+				nv = 5 + r.Intn(4)
+				clauses = gen.RandKSAT(r, nv, int(3.8*float64(nv))+r.Intn(nv), 3)
+				clauses = append(clauses, gen.RandKSAT(r, nv, r.Intn(3), 2)...)
 			} else {
 				clauses = gen.RandCNF(r, nv, m, 4, true)
 			}
